@@ -4,13 +4,22 @@ A case is plain data:
 
     {"kind": "dl" | "gather" | "race",
      "foc": bool, "foe": bool, "ce": bool,        # dl flags (gather uses ce only)
-     "inputs": [[prefired, ok, canceller], ...],   # canceller in none|noop|ok|fail
-     "sched":  [i, ..., -1, ...]}                  # fire input i / -1 = cancel the aggregate
+     "inputs": [[prefired, ok, canceller(, [inner_ok, inner_canceller])], ...],   # canceller in none|noop|ok|fail
+     "sched":  [i, ..., -1, ..., 100+i]}           # fire input i / -1 = cancel the aggregate / fire input i's inner Deferred
 
 Input i fires with the value ("v", i) or the exception Boom(("x", i)); its
 canceller (when it has one) does nothing, fires ("cv", i) or fails with
 Boom(("cx", i)).  A schedule entry for an input that has already completed
 (because something cancelled it) is skipped.
+
+An input with a fourth element is *chained*: before the aggregate is built it
+gets a callback that returns a fresh unfired inner Deferred, so once the input
+has fired with a success it "has a result" (.called is true) but its chain --
+and with it the aggregate's own callback -- waits for the inner Deferred.
+The inner Deferred fires with ("iv", i) / Boom(("ix", i)) and has its own
+canceller (("icv", i) / Boom(("icx", i))).  From the aggregate's point of view
+such an input has not completed yet; Deferred.cancel() documents that a
+cancel of a Deferred waiting on another one is forwarded to that one.
 """
 import itertools
 
@@ -22,10 +31,10 @@ META = dict(
     property="C04",
     level="exploration",
     technique="complete small-scope enumeration (kinds x flags x pre-fired subsets x outcomes x cancellers x firing permutations x aggregate-cancel position) + Hypothesis schedules for up to 12 inputs, lock-step against a model of the documented aggregate results",
-    level_text="Every case with 1..3 inputs (quick) / 1..4 inputs (thorough); at the largest size of each tier the canceller alphabet is none/fires-success/fires-failure, below it also the do-nothing canceller is executed against the real DeferredList / gatherResults / race and a reference model, comparing after every step: whether the aggregate has fired, its result, what a callback added later to each input sees, how often each input's canceller ran and how often the race winner was cancelled. Lists of up to 12 inputs are sampled. Exhaustive only for the stated sizes.",
-    level_note="Reference model written from the docstrings of DeferredList, gatherResults, race and Deferred.cancel; trusted. Inputs are plain Deferreds (a subclass that counts cancel() calls) with no other callbacks; inputs that chain to further Deferreds are outside the scope.",
+    level_text="Every case with 1..3 inputs (quick) / 1..4 inputs (thorough); at the largest size of each tier the canceller alphabet is none/fires-success/fires-failure, below it also the do-nothing canceller -- and every case with 1..2 (quick) / 1..3 (thorough) inputs of which at least one has fired but still waits on an inner Deferred returned by an earlier callback -- is executed against the real DeferredList / gatherResults / race and a reference model, comparing after every step: whether the aggregate has fired, its result, what a callback added later to each input sees, how often each input's canceller ran and how often the race winner was cancelled. Lists of up to 12 inputs are sampled. Exhaustive only for the stated sizes.",
+    level_note="Reference model written from the docstrings of DeferredList, gatherResults, race and Deferred.cancel; trusted. Inputs are Deferreds (a subclass that counts cancel() calls), either bare or with one earlier callback that returns an unfired inner Deferred (fired-but-still-waiting inputs). For race, inputs on which cancel() does not produce a result at once (canceller fires a success whose callback then waits on an inner Deferred) are outside the scope: the statement does not say what race does with a result arriving after its own cancellation.",
     design_ref="§5 C04",
-    rule="case = (kind, flags, per input [pre-fired, outcome, canceller], schedule of fire/cancel steps). non-trivial = at least 3 inputs, both successes and failures among the planned outcomes, and the inputs do not complete in index order; distinct by the whole case.",
+    rule="case = (kind, flags, per input [pre-fired, outcome, canceller, optional inner Deferred plan], schedule of fire / fire-inner / cancel steps). non-trivial = at least 3 inputs, both successes and failures among the planned outcomes, and the inputs do not complete in index order; distinct by the whole case.",
 )
 
 CANCELLERS = ("none", "noop", "ok", "fail")
@@ -37,7 +46,11 @@ CANCELLED = ("cancelled",)
 # ("cx",i) CANCELLED failures.
 
 def _is_ok(tag):
-    return tag[0] in ("v", "cv")
+    return tag[0] in ("v", "cv", "iv", "icv")
+
+
+def _chain(inp):
+    return inp[3] if len(inp) > 3 and inp[3] else None
 
 
 class Model:
@@ -51,6 +64,12 @@ class Model:
         self.outcome = [None] * self.n        # tag once input i has completed
         self.order = []                       # indices in order of completion
         self.canc_calls = [0] * self.n        # canceller invocations
+        self.outer_fired = [False] * self.n   # the input Deferred itself has a result
+        self.waiting = [False] * self.n       # ... but its chain waits on the inner Deferred
+        self.inner_canc_calls = [0] * self.n  # inner canceller invocations
+        self.inner_cancels = [0] * self.n     # cancel() calls that must reach the inner Deferred
+        self.inner_made = [False] * self.n
+        self.cancelled_while_waiting = 0
         self.by_cancel = [False] * self.n     # completed because it was cancelled
         self.agg = None                       # None or a result description
         self.winner = None
@@ -60,6 +79,27 @@ class Model:
     def complete(self, i, tag):
         self.preset(i, tag)
         self.learn(i)
+
+    # the input Deferred itself gets the result `tag` (fired or cancelled);
+    # returns True if that completes the input, False if it now waits on its
+    # inner Deferred
+    def outer_result(self, i, tag, learn=True):
+        assert not self.outer_fired[i]
+        self.outer_fired[i] = True
+        if _chain(self.inputs[i]) and _is_ok(tag):
+            self.waiting[i] = True
+            self.inner_made[i] = True
+            return False
+        if learn:
+            self.complete(i, tag)
+        else:
+            self.preset(i, tag)
+        return True
+
+    def inner_result(self, i, tag):
+        assert self.waiting[i]
+        self.waiting[i] = False
+        self.complete(i, tag)
 
     def preset(self, i, tag):
         assert self.outcome[i] is None
@@ -105,23 +145,31 @@ class Model:
     def cancel_input(self, i):
         if self.outcome[i] is not None:
             return
+        self.by_cancel[i] = True
+        if self.waiting[i]:
+            # fired, but waiting on its inner Deferred: the cancel goes there
+            c = _chain(self.inputs[i])[1]
+            self.inner_cancels[i] += 1
+            self.cancelled_while_waiting += 1
+            if c != "none":
+                self.inner_canc_calls[i] += 1
+            tag = ("icv", i) if c == "ok" else ("icx", i) if c == "fail" else CANCELLED
+            self.inner_result(i, tag)
+            return
         c = self.inputs[i][2]
         if c != "none":
             self.canc_calls[i] += 1
-        self.by_cancel[i] = True
-        if c == "ok":
-            self.complete(i, ("cv", i))
-        elif c == "fail":
-            self.complete(i, ("cx", i))
-        else:
-            self.complete(i, CANCELLED)
+        tag = ("cv", i) if c == "ok" else ("cx", i) if c == "fail" else CANCELLED
+        self.outer_result(i, tag)
 
     def cancel_aggregate(self):
         if self.agg is not None:
             return False
         for i in range(self.n):
             self.cancel_input(i)
-        if self.agg is None:      # cannot happen for n >= 1; kept for the record
+        if self.agg is None and self.kind == "race":
+            # only if some input's cancel() produced no result (outside the
+            # generated scope for race); Deferred.cancel then fails the result
             self.agg = ("cancelled",)
         return True
 
@@ -223,8 +271,15 @@ def run_case(ctx, case):
     inputs = case["inputs"]
     n = len(inputs)
     m = Model(case)
+    if kind == "race" and any(_chain(x) and x[2] == "ok" and not x[0] for x in inputs):
+        # cancel() on such an input yields no result at once; what race does with
+        # a result that arrives after its own cancellation is not in the statement
+        ctx.count("outside scope: race input whose cancel() does not complete it")
+        return
 
     canc_real = [0] * n
+    icanc_real = [0] * n
+    inner = [None] * n
     seen = [[] for _ in range(n)]         # what the later callback on input i saw
     agg_seen = []
 
@@ -246,7 +301,34 @@ def run_case(ctx, case):
         else:
             ds[i].errback(Boom(("x", i)))
 
+    def make_inner_canceller(i, c):
+        if c == "none":
+            return None
+
+        def canceller(d):
+            icanc_real[i] += 1
+            if c == "ok":
+                d.callback(("icv", i))
+            elif c == "fail":
+                d.errback(Boom(("icx", i)))
+        return canceller
+
+    def chain_cb(i):
+        def cb(r):
+            inner[i] = D(make_inner_canceller(i, _chain(inputs[i])[1]))
+            return inner[i]
+        return cb
+
+    def fire_inner(i):
+        if _chain(inputs[i])[0]:
+            inner[i].callback(("iv", i))
+        else:
+            inner[i].errback(Boom(("ix", i)))
+
     ds = [D(make_canceller(i, inputs[i][2])) for i in range(n)]
+    for i in range(n):
+        if _chain(inputs[i]):
+            ds[i].addCallback(chain_cb(i))
     for i in range(n):
         if inputs[i][0]:
             fire(i)
@@ -262,12 +344,13 @@ def run_case(ctx, case):
         agg = defer.race(ds)
     # model: inputs fired beforehand have their outcome already; the aggregate
     # takes note of them in input order while it is being built
+    prelearn = []
     for i in range(n):
         if inputs[i][0]:
-            m.preset(i, ("v", i) if inputs[i][1] else ("x", i))
-    for i in range(n):
-        if inputs[i][0]:
-            m.learn(i)
+            if m.outer_result(i, ("v", i) if inputs[i][1] else ("x", i), learn=False):
+                prelearn.append(i)
+    for i in prelearn:
+        m.learn(i)
 
     def agg_cb(r):
         agg_seen.append(r)
@@ -286,6 +369,12 @@ def run_case(ctx, case):
     steps_done = []
 
     def compare(step):
+        # a cancel owed to an input that has fired but still waits on its inner
+        # Deferred (checked first: it names the root cause most narrowly)
+        for i in range(n):
+            if inner[i] is not None and inner[i].ncancel < m.inner_cancels[i]:
+                ctx.violation(f"{kind}-cancel-not-forwarded-to-waiting-input", case,
+                              f"after {step}: input {i} has fired and waits on an inner Deferred; that one got {inner[i].ncancel} cancel() calls, model {m.inner_cancels[i]}")
         # aggregate fired?
         want = m.agg
         if want is None:
@@ -313,13 +402,27 @@ def run_case(ctx, case):
         # inputs
         for i in range(n):
             exp = m.later_sees(i)
-            if ds[i].called != (m.outcome[i] is not None):
+            if ds[i].called != m.outer_fired[i]:
                 ctx.violation(f"{kind}-input-completion", case,
-                              f"after {step}: input {i} called={ds[i].called}, model outcome {m.outcome[i]!r}")
+                              f"after {step}: input {i} called={ds[i].called}, model fired={m.outer_fired[i]} outcome {m.outcome[i]!r}")
+            if (inner[i] is not None) != m.inner_made[i]:
+                ctx.violation(f"{kind}-input-completion", case,
+                              f"after {step}: input {i} inner Deferred exists={inner[i] is not None}, model waiting={m.waiting[i]} outcome {m.outcome[i]!r}")
+            if inner[i] is not None:
+                if inner[i].ncancel != m.inner_cancels[i]:
+                    sig = f"{kind}-cancel-not-forwarded-to-waiting-input" if inner[i].ncancel < m.inner_cancels[i] else f"{kind}-inner-spurious-cancel"
+                    ctx.violation(sig, case,
+                                  f"after {step}: input {i} has fired and waits on an inner Deferred; that one got {inner[i].ncancel} cancel() calls, model {m.inner_cancels[i]}")
+                if icanc_real[i] != m.inner_canc_calls[i]:
+                    ctx.violation(f"{kind}-canceller-count", case,
+                                  f"after {step}: inner canceller of input {i} ran {icanc_real[i]} times, model {m.inner_canc_calls[i]}")
             if exp is None:
                 if seen[i]:
-                    ctx.violation(f"{kind}-input-completion", case, f"after {step}: input {i} ran callbacks, model says unfired")
+                    ctx.violation(f"{kind}-input-completion", case, f"after {step}: input {i} ran callbacks, model says it has not completed")
                 continue
+            if not seen[i] and m.by_cancel[i]:
+                ctx.violation(f"{kind}-cancel-not-forwarded", case,
+                              f"after {step}: input {i} should have been completed by a cancellation (model outcome {m.outcome[i]!r}); it has not completed")
             if len(seen[i]) != 1:
                 ctx.violation(f"{kind}-input-callback-count", case, f"after {step}: input {i} later callback ran {len(seen[i])} times")
             r = seen[i][0]
@@ -344,8 +447,9 @@ def run_case(ctx, case):
                 ctx.violation(f"{kind}-canceller-count", case,
                               f"after {step}: canceller of input {i} ran {canc_real[i]} times, model {m.canc_calls[i]}")
         for i in range(n):
-            if m.outcome[i] is None and canc_real[i] != 0:
-                ctx.violation(f"{kind}-canceller-count", case, f"after {step}: canceller of unfinished input {i} ran")
+            if canc_real[i] != m.canc_calls[i]:
+                ctx.violation(f"{kind}-canceller-count", case,
+                              f"after {step}: canceller of input {i} ran {canc_real[i]} times, model {m.canc_calls[i]}")
         if kind == "race" and m.winner is not None:
             w = m.winner
             expc = 1 if m.by_cancel[w] else 0
@@ -364,22 +468,24 @@ def run_case(ctx, case):
     skipped = 0
     for op in case["sched"]:
         if op == -1:
-            before = [x is None for x in m.outcome]
             effective = m.cancel_aggregate()
             if effective:
                 cancel_while_unfired = True
             agg.cancel()
             step = "cancel"
-            if effective:
-                # every input unfired at that moment has now been cancelled
-                for i in range(n):
-                    if before[i] and ds[i].ncancel < 1:
-                        ctx.violation(f"{kind}-cancel-not-forwarded", case, f"input {i} was unfired and not cancelled")
-        else:
-            if m.outcome[op] is not None:
+        elif op >= 100:
+            i = op - 100
+            if not (0 <= i < n) or not m.waiting[i]:
                 skipped += 1
                 continue
-            m.complete(op, ("v", op) if inputs[op][1] else ("x", op))
+            m.inner_result(i, ("iv", i) if _chain(inputs[i])[0] else ("ix", i))
+            fire_inner(i)
+            step = f"fire-inner({i})"
+        else:
+            if m.outer_fired[op]:
+                skipped += 1
+                continue
+            m.outer_result(op, ("v", op) if inputs[op][1] else ("x", op))
             fire(op)
             step = f"fire({op})"
         steps_done.append(step)
@@ -401,6 +507,14 @@ def run_case(ctx, case):
         ctx.count("agg=unfired at end")
     if any(x[0] for x in inputs):
         ctx.count("has pre-fired input")
+    if any(_chain(x) for x in inputs):
+        ctx.count("has chained input (callback returns an inner Deferred)")
+    if any(i is not None for i in inner):
+        ctx.count("some input fired and then waited on its inner Deferred")
+    if m.cancelled_while_waiting:
+        ctx.count("cancel reached an input that had fired but was still waiting on its inner Deferred")
+    if any(m.waiting):
+        ctx.count("some input still waiting at end")
     if n >= 3 and mixed and not in_order:
         ctx.count("nontrivial")
         ctx.nontrivial((kind, case.get("foc"), case.get("foe"), case.get("ce"),
@@ -450,7 +564,57 @@ def enum_cases(n, kinds, cancellers=CANCELLERS, part=0, nparts=1):
                                        sched=sched)
 
 
+def _input_alphabet(kind, with_cancel, outer_cancellers, inner_cancellers):
+    """All single-input descriptions for the chained family."""
+    out = []
+    oc = outer_cancellers if with_cancel else ("none",)
+    ic = inner_cancellers if with_cancel else ("none",)
+    for ok in (True, False):
+        out.append([True, ok, "none"])                       # bare, pre-fired
+        for c in oc:
+            out.append([False, ok, c])                       # bare, fired later
+    for iok in (True, False):
+        for c2 in ic:
+            out.append([True, True, "none", [iok, c2]])      # chained, pre-fired: waits from the start
+            for c in oc:
+                if c == "ok" and kind == "race":
+                    continue                                 # see run_case: outside the scope
+                out.append([False, True, c, [iok, c2]])      # chained, fired later
+    return out
+
+
+def enum_chained(n, kinds, outer_cancellers=("none", "fail"), inner_cancellers=("none", "ok", "fail"),
+                 part=0, nparts=1):
+    """Every case for n inputs of which at least one is chained: all orders of
+    the firings (an inner Deferred after its input) x a cancel of the
+    aggregate at every position or nowhere."""
+    for k in kinds:
+        for with_cancel in (False, True):
+            alpha = _input_alphabet(k["kind"], with_cancel or k["kind"] == "race",
+                                    outer_cancellers, inner_cancellers)
+            for ci, combo in enumerate(itertools.product(alpha, repeat=n)):
+                if ci % nparts != part:
+                    continue
+                if not any(_chain(x) for x in combo):
+                    continue
+                events = [i for i in range(n) if not combo[i][0]]
+                events += [100 + i for i in range(n) if _chain(combo[i])]
+                for perm in itertools.permutations(events):
+                    if any(100 + e in perm[:pos] for pos, e in enumerate(perm) if e < 100):
+                        continue        # inner before its input
+                    positions = range(len(perm) + 1) if with_cancel else [None]
+                    for cpos in positions:
+                        sched = list(perm)
+                        if cpos is not None:
+                            sched.insert(cpos, -1)
+                        yield dict(k, inputs=[list(x) for x in combo], sched=sched)
+
+
 def _enum_shard(ctx, arg):
+    if arg[0] == "chained":
+        _, n, kinds, oc, ic, part, nparts = arg
+        enumerate_run(ctx, enum_chained(n, kinds, oc, ic, part, nparts), run_case)
+        return
     n, kinds, cancellers, part, nparts = arg
     enumerate_run(ctx, enum_cases(n, kinds, cancellers, part, nparts), run_case)
 
@@ -473,8 +637,18 @@ def random_case(draw):
         for x in inputs:
             if draw(st.integers(0, 4)) != 0:
                 x[1] = b
-    unfired = [i for i in range(n) if not inputs[i][0]]
-    perm = draw(st.permutations(unfired))
+    if draw(st.integers(0, 2)) == 0:
+        # some inputs get a callback that returns an inner Deferred
+        for x in inputs:
+            if draw(st.integers(0, 2)) == 0:
+                x.append([draw(st.booleans()), draw(st.sampled_from(CANCELLERS))])
+                if draw(st.integers(0, 3)) != 0:
+                    x[1] = True          # a failing input never reaches its inner Deferred
+                if k["kind"] == "race" and x[2] == "ok" and not x[0]:
+                    x[2] = "fail"        # outside the scope, see run_case
+    events = [i for i in range(n) if not inputs[i][0]]
+    events += [100 + i for i in range(n) if _chain(inputs[i])]
+    perm = draw(st.permutations(events))
     sched = list(perm)
     ncancel = draw(st.sampled_from([0, 0, 1, 1, 1, 2]))
     for _ in range(ncancel):
@@ -501,10 +675,23 @@ def run(ctx):
         else:
             args.append((n, kinds, cancellers, 0, 1))
     args.sort(key=lambda a: -a[0])
+    # second family: lists with at least one chained input (fired, but waiting
+    # on an inner Deferred returned by an earlier callback)
+    trimmed = (("none", "fail"), ("none", "ok", "fail"))
+    if ctx.thorough:
+        args.append(("chained", 1, kinds, CANCELLERS, CANCELLERS, 0, 1))
+        args += [("chained", 2, [k], CANCELLERS, CANCELLERS, 0, 1) for k in kinds]
+        args += [("chained", 3, [k], ("none",), ("none", "ok"), p, 4) for k in kinds for p in range(4)]
+        scope["chained"] = {"1": "all four cancellers (input and inner)", "2": "all four cancellers (input and inner)",
+                            "3": "input: none; inner: none/ok"}
+    else:
+        args.append(("chained", 1, kinds, CANCELLERS, CANCELLERS, 0, 1))
+        args.append(("chained", 2, kinds) + trimmed + (0, 1))
+        scope["chained"] = {"1": "all four cancellers (input and inner)", "2": "input: none/fail; inner: none/ok/fail"}
     if ctx.thorough:
         ctx.shards(_enum_shard, args)
     else:
-        # ~85 000 cases, a few seconds on one core: no worker processes
+        # ~175 000 cases, well under 20 s on one core: no worker processes
         for a in args:
             _enum_shard(ctx, a)
             if ctx.has_violation():
